@@ -137,12 +137,14 @@ def server_hash(ctx, id_len=1, key_len=4, sentinel=False):
     sid = sstr.ctx_str(ctx, 'server_id', id_len)
     secret = ctx.bytes('secret', 16)
     key = ctx.bytes('key', key_len)
+    # (all inputs are declared before the code under test runs, so that a
+    # path that ends early still yields a complete assignment)
+    secret2 = ctx.bytes('secret2', 16)
+    key2 = ctx.bytes('key2', key_len)
     ctx.env['sha1_fix_from'] = 1
     got = enc.generate_verification_hash(sid, secret, key)
     # a second login in the same process, same server id, other secret/key:
     # each hash must cover exactly its own triple
-    secret2 = ctx.bytes('secret2', 16)
-    key2 = ctx.bytes('key2', key_len)
     got2 = enc.generate_verification_hash(sid, secret2, key2)
     if ctx.mode == 'sym':
         h, h2 = ctx.env['sha1'][-2:]
